@@ -62,6 +62,8 @@ class InterFlow(Flow):
     def eval_other(self, e, env):
         if isinstance(e, ast.Tuple) and not any(isinstance(x, ast.Starred) for x in e.elts):
             return ("tuple", tuple(self.eval(x, env) for x in e.elts))
+        if isinstance(e, ast.Dict) and e.keys and all(isinstance(k, ast.Constant) and isinstance(k.value, str) for k in e.keys):
+            return ("dictlit", tuple((k.value, self.eval(v, env)) for k, v in zip(e.keys, e.values)))
         return super().eval_other(e, env)
 
     def store_subscript(self, target, v, env):
